@@ -44,6 +44,9 @@ pub struct Cfg {
     pub fuel: u64,
     pub ref_limit: u64,
     pub k_ratio: u64,
+    /// long haystacks (size-parameterised families): only the start offsets near both ends, around the
+    /// 8 / 16 / 32-byte marks and in the middle
+    pub sparse_starts: bool,
 }
 
 /// Shape signature of a pattern: letters -> x, counts -> n. Used only to group violations.
@@ -327,6 +330,9 @@ pub fn eval_pattern_text(cfg: &Cfg, ast: &Node, pat: Vec<u32>, flags: Flags, hay
             None
         };
         for s in 0..=n + 1 {
+            if cfg.sparse_starts && n > 12 && !(s <= 2 || s + 3 >= n || s == n / 2 || matches!(s, 7 | 8 | 9 | 15 | 16 | 17 | 31 | 32 | 33)) {
+                continue;
+            }
             let bs = byte_start(hay, s);
             if !(cfg.prop == Prop::C13 && !hay.is_ascii()) {
                 st.add("evaluations", 1);
@@ -849,16 +855,113 @@ pub fn lead_byte_classes() -> (Vec<Node>, Vec<u32>) {
     (out, universe)
 }
 
+/// Size-parameterised families: what small-scope enumeration cannot reach by construction (the 17th group, the
+/// second 16-byte chunk, counts around 255 / 256, a class of a hundred intervals, a match at byte offset 64k+1).
+/// Each template is instantiated at sizes around the powers of two; haystacks are built to sit on the edges.
+pub fn scale_family(thorough: bool) -> Vec<(String, &'static str, Vec<String>)> {
+    let mut sizes: Vec<usize> = vec![15, 16, 17, 31, 32, 33, 63, 64, 65, 127, 128, 129, 255, 256, 257];
+    if thorough {
+        sizes.extend([511, 512, 513, 1023, 1024, 1025]);
+    }
+    let lit = |n: usize| -> String { (0..n).map(|i| (b'a' + (i % 23) as u8) as char).collect() };
+    let word = |i: usize| -> String { format!("w{}", (0..3).map(|k| (b'a' + ((i / 26usize.pow(k)) % 26) as u8) as char).collect::<String>()) };
+    let mut out: Vec<(String, &'static str, Vec<String>)> = Vec::new();
+    for &n in &sizes {
+        let l = lit(n);
+        let mut l_bad_end = l.clone();
+        l_bad_end.pop();
+        l_bad_end.push('!');
+        let mut l_bad_mid: Vec<char> = l.chars().collect();
+        l_bad_mid[n / 2] = '!';
+        let l_bad_mid: String = l_bad_mid.into_iter().collect();
+        let pads = ["", " ", "1234567", "12345678", "123456789", "ééé", "😀x"];
+        let lit_hays: Vec<String> = pads.iter().flat_map(|p| vec![format!("{}{}", p, l), format!("{}{}{}", p, l, l), format!("{}{}x{}", p, l_bad_end, l), format!("{}{}", p, l_bad_mid)]).collect();
+        out.push((l.clone(), "", lit_hays.clone()));
+        out.push((l.clone(), "i", lit_hays.iter().map(|h| h.to_uppercase()).chain(lit_hays.iter().cloned()).collect()));
+        out.push((format!("(?<={})x", l), "", vec![format!("{}x", l), format!("{}x {}x", l_bad_mid, l), format!("x{}x", l_bad_end), format!("é{}xx", l)]));
+        out.push((format!("(?<!{})x", l), "", vec![format!("{}x", l), format!("{}x", l_bad_mid), "x".into()]));
+        out.push((format!("x(?={})", l), "", vec![format!("x{}", l), format!("x{} x{}", l_bad_end, l)]));
+        // n alternatives of distinct words
+        let alts: String = (0..n).map(word).collect::<Vec<_>>().join("|");
+        let alt_hays = vec![format!(" {} ", word(0)), format!(" {} {} ", word(n - 1), word(n / 2)), format!("{}{}", word(n), word(n - 1)), "w".into()];
+        out.push((alts.clone(), "", alt_hays.clone()));
+        out.push((format!("(?:{})+$", alts), "", alt_hays.clone()));
+        out.push((format!("({})\\1", alts), "", vec![format!("{}{}", word(n - 1), word(n - 1)), format!("{}{}", word(n - 1), word(0))]));
+        // n capture groups, backreference to the last and to the 10th; named likewise
+        let letters = |i: usize| (b'a' + (i % 26) as u8) as char;
+        let groups: String = (0..n).map(|i| format!("({})", letters(i))).collect();
+        let text: String = (0..n).map(letters).collect();
+        out.push((format!("{}\\{}", groups, n), "", vec![format!("{}{}", text, letters(n - 1)), format!("{}{}", text, letters(n)), format!("x{}{}", text, letters(n - 1))]));
+        out.push((format!("{}\\10", groups), "", vec![format!("{}j", text), format!("{}a0", text)]));
+        let ngroups: String = (0..n).map(|i| format!("(?<g{}>{})", i, letters(i))).collect();
+        out.push((format!("{}\\k<g{}>", ngroups, n - 1), "", vec![format!("{}{}", text, letters(n - 1)), format!("{}{}", text, letters(n))]));
+        let opt_groups: String = (0..n).map(|i| format!("({})?", letters(i))).collect();
+        out.push((opt_groups, "", vec![text.clone(), text.chars().step_by(2).collect(), format!("{}{}", &text[n / 2..], text)]));
+        // counts
+        let a = |k: usize| "a".repeat(k);
+        let count_hays = vec![a(n - 1), a(n), format!("{}b", a(n + 1)), format!("b{}b{}", a(n), a(n - 1)), format!("{}b", a(2 * n + 1))];
+        for p in [format!("a{{{}}}", n), format!("a{{{},}}b", n), format!("a{{0,{}}}b", n), format!("a{{{}}}?a", n), format!("(a){{{}}}", n), format!("(?:a|b){{{}}}b", n), format!("[ab]{{{}}}b", n), format!(".{{{}}}b", n), format!("(?<=a{{{}}})b", n), format!("(?<=^.{{{}}})", n), format!("(a{{{}}})\\1", n), format!("a{{{},{}}}$", n - 1, n)] {
+            out.push((p, "", count_hays.clone()));
+        }
+        out.push((format!("(?:ab){{{}}}c", n), "", vec![format!("{}c", "ab".repeat(n)), format!("{}c", "ab".repeat(n - 1)), format!("{}c", "ab".repeat(n + 1))]));
+        out.push((format!("é{{{}}}", n), "u", vec!["é".repeat(n), "é".repeat(n - 1), format!("a{}", "é".repeat(n + 1))]));
+        // a class of n intervals (every third code point from U+0100), plain and negated, in a loop
+        let cls: String = (0..n).map(|i| format!("\\u{{{:X}}}-\\u{{{:X}}}", 0x100 + 3 * i, 0x101 + 3 * i)).collect();
+        let c = |cp: usize| char::from_u32(cp as u32).unwrap();
+        let cls_hay: String = [0x100, 0x101, 0x102, 0x103, 0x100 + 3 * (n - 1), 0x101 + 3 * (n - 1), 0x102 + 3 * (n - 1), 0x100 + 3 * n, 0xFF, 0x100 + 3 * (n / 2) + 2, 0x100 + 3 * (n / 2)].iter().map(|&x| c(x)).collect();
+        out.push((format!("[{}]+", cls), "u", vec![cls_hay.clone(), format!("a{}", c(0x100 + 3 * (n - 1)))]));
+        out.push((format!("[^{}]+", cls), "u", vec![cls_hay.clone()]));
+        out.push((format!("[{}]", cls), "iu", vec![cls_hay.clone(), "ā".to_uppercase()]));
+        // nesting (below the documented limit)
+        if n <= 200 {
+            out.push((format!("{}a{}", "(".repeat(n), ")".repeat(n)), "", vec!["a".into(), "ba".into()]));
+            out.push((format!("{}a{}", "(?:".repeat(n), ")*".repeat(n)), "", vec!["aaa".into(), "".into()]));
+            out.push((format!("{}a{}b", "(?=".repeat(n), ")".repeat(n)), "", vec!["ab".into(), "b".into()]));
+        }
+        // long haystacks: loops that iterate n times, matches that start at offset n
+        out.push(("(?:(a)|b)*c".into(), "", vec![format!("{}c", "ab".repeat(n)), format!("{}d", "ab".repeat(n))]));
+        out.push(("(?:a|ab)*c".into(), "", vec![format!("{}c", "ab".repeat(n)), format!("{}c", "a".repeat(n))]));
+        out.push(("a*?b".into(), "", vec![format!("{}b", a(n)), format!("{}c", a(n))]));
+        out.push(("x\\d+".into(), "", vec![format!("{}x12", " ".repeat(n)), format!("{}x12 x3", "é".repeat(n)), format!("{}x", "x".repeat(n))]));
+        out.push(("(?<=\\d{3})x|^y".into(), "m", vec![format!("{}123x\ny", "-".repeat(n)), format!("{}12x", "1".repeat(n))]));
+        out.push(("\\bfoo\\b".into(), "i", vec![format!("{} FOO {}foo", "é ".repeat(n), "x".repeat(n))]));
+        out.push(("(.)\\1".into(), "is", vec![format!("{}aA", "ab".repeat(n)), format!("{}{}k", "é".repeat(n), '\u{212A}')]));
+    }
+    out
+}
+
 /// Run one property over a list of profiles. Returns merged statistics.
 pub fn run(run: &mut Run, prop: Prop, profile_names: &[&str]) -> Stats {
     let thorough = run.thorough();
-    let cfg = Cfg { pid: prop.id(), sig: shape, prop, fuel: if thorough { 4_000_000 } else { 600_000 }, ref_limit: 3_000_000, k_ratio: 64 };
+    let cfg = Cfg { pid: prop.id(), sig: shape, prop, fuel: if thorough { 4_000_000 } else { 600_000 }, ref_limit: 3_000_000, k_ratio: 64, sparse_starts: false };
     let mut total = drive(run, prop.id(), profile_names, &|sp, th| hays_for(sp, th, prop), &|ast, f, hays, known, st| eval_pattern(&cfg, ast, f, hays, known, st));
     if matches!(prop, Prop::C01 | Prop::C02 | Prop::C03 | Prop::C13) && std::env::var("VERIF_PROFILES").map(|v| v.is_empty() || v.contains("tokens")).unwrap_or(true) {
         // token strings of length 5 (46.8 million) are read against the reference by C01 and judged by C08;
         // the differential sweeps stop at 4
         let n = if thorough { if prop == Prop::C01 { 5 } else { 4 } } else { if prop == Prop::C01 { 4 } else { 3 } };
         let t = drive_tokens(run, prop.id(), n, &|ast, pat, f, hays, known, st| eval_pattern_text(&cfg, ast, pat, f, hays, known, st));
+        total = total.merge(t);
+    }
+    if std::env::var("VERIF_PROFILES").map(|v| v.is_empty() || v.contains("scale")).unwrap_or(true) {
+        let fam = scale_family(thorough);
+        let known = &run.known;
+        let cfg = Cfg { sparse_starts: true, fuel: 4_000_000, ..cfg };
+        let t0 = std::time::Instant::now();
+        let t = fam
+            .par_iter()
+            .fold(Stats::default, |mut st, (p, f, hs)| {
+                let pat: Vec<u32> = p.chars().map(|c| c as u32).collect();
+                let fl = Flags::parse(f);
+                let hays: Vec<Hay> = hs.iter().filter(|h| prop != Prop::C13 || h.is_ascii()).map(|h| Hay::new(h.chars().map(|c| c as u32).collect())).collect();
+                match crate::refparse::parse(&pat, fl) {
+                    Ok(ast) => eval_pattern_text(&cfg, &ast, pat, fl, &hays, known, &mut st),
+                    Err(e) => st.error(format!("scale family pattern /{}/{} is outside the reference grammar: {}", p.chars().take(60).collect::<String>(), f, e)),
+                }
+                st
+            })
+            .reduce(Stats::default, Stats::merge);
+        println!("  {} size-parameterised family: patterns={} cases={} violations={} ({:.1}s)", prop.id(), fam.len(), t.get("evaluations"), t.total_violations(), t0.elapsed().as_secs_f64());
+        run.extra.push(("size_parameterised_family".into(), J::obj().set("patterns", J::u(fam.len() as u64)).set("evaluations", J::u(t.get("evaluations"))).set("sizes", J::s("15 16 17 31 32 33 63 64 65 127 128 129 255 256 257 (thorough: + 511..513, 1023..1025)"))));
         total = total.merge(t);
     }
     if prop == Prop::C04 && std::env::var("VERIF_PROFILES").map(|v| v.is_empty()).unwrap_or(true) {
